@@ -1,5 +1,5 @@
 PROP = {
-    "coq": ["C14"],
+    "coq": ["C14", "C14b"],
     "exhaustive": False,
     "rule": "The credential x version matrix is finite and enumerated completely in the quick tier, with certificates generated at run "
             "time (CA, foreign CA, intermediate, leaves; ECDSA P-256, in the thorough tier also RSA 2048 and second fresh key sets). "
@@ -43,7 +43,17 @@ PROP = {
             "sessions open at once with round-robin requests (conc), or one goroutine per connection (par), 1-3 valid requests each with "
             "the unit id naming the connection; observable per connection: the role of every handler invocation (attributed by unit id, "
             "cross-checked with ClientAddr) and the responses read; model = tls_start_tls per connection + grun of Model/Sessions.v. "
-            "tlschainrole is also run by `check C15`, tlsroles by `check C11`.",
+            "tlschainrole is also run by `check C15`, tlsroles by `check C11`. "
+            "The LOCAL certificate varies too (harness/cmd/implrun/c14c_localcred.go, ocaml/scn_tlslocal.ml, Model/TlsLocal.v, "
+            "Properties/C14b.v): tlssrvl / tlsclil are the tlssrv / tlscli runs with the modbus side holding an own certificate that is "
+            "valid (control), about to expire (+2 h), expired 48 h ago, valid in 48 h, or expired 300 days ago, x peer credentials issued "
+            "by a long-lived CA (or pinned self-signed leaves) that are valid, end 24 h before / after the local NotAfter, start 24 h "
+            "before / after the local NotBefore (9 peers per local credential, no boundary closer than 1 h to the run), at TLS 1.2 and "
+            "1.3 (all four versions in the thorough tier); the harness peer does not verify the modbus side (InsecureSkipVerify on the "
+            "harness client, RequestClientCert on the harness server) so that the library's decision is what is observed; `verifies` is "
+            "x509.Verify at the real current time as before and expected / P do not look at the local certificate; the model "
+            "(tls_server_conn_l / tls_client_tx_l) is given the local validity period and an oracle family indexed by the instant at "
+            "which the peer is validated, defined at the current time only.",
     "assumptions": [
         "ORACLE HYPOTHESES (explicit premises of the theorems, about Go's standard library, not about this repository): "
         "tls_srv_documented - a crypto/tls server-side Handshake() returns nil only with a TLS peer, at a version the peer offers that is "
